@@ -22,7 +22,7 @@ RULE = ("dimers and trimers with two-exciton states, site energies 11500-12700 1
         "scale factors 0.4-2.5. distinct = (class, N, polarisation class, rounded parameters); non-trivial iff at least 4 pathways were built and the response is non-zero.")
 ASSUMPTIONS = ["dtol = 1e-12 and all non-zero dipole strengths >= 0.09 (the pathway filter compares |d|^2 products with an absolute threshold, which is not scale covariant)",
                "responses are compared at 1e-9 of their maximum (metamorphic pairs of real runs)"]
-MIN_NONTRIVIAL = {"quick": 20, "thorough": 150}
+MIN_NONTRIVIAL = {"quick": 25, "thorough": 300}
 REQUIRED_CLAUSES = ["prefactor==exact-orientational-average", "rotation-of-dipoles", "rotation-of-polarisations", "fourth-power-scaling", "total==reph+nonr",
                     "uncoupled==sum-of-molecules"]
 REQUIRED_CONTRACTS = ["liouville_pathway.orientational_averaging"]
@@ -33,7 +33,7 @@ _state = {"ctx": None, "on": False, "seen": 0}
 
 def gen_cases(tier, rng):
     cases = []
-    n = 20 if tier == "quick" else 130
+    n = 32 if tier == "quick" else 400
     X, Y, Z = [1.0, 0.0, 0.0], [0.0, 1.0, 0.0], [0.0, 0.0, 1.0]
     ma = [numpy.cos(numpy.deg2rad(54.7356)), numpy.sin(numpy.deg2rad(54.7356)), 0.0]
     for i in range(n):
@@ -77,6 +77,10 @@ def gen_cases(tier, rng):
         cases.append({"cls": "uncoupled" if uncoupled else "coupled", "N": N, "E": E, "J": J.tolist(), "dip": dips, "widths": widths, "pol": pol, "polclass": pk,
                       "shape": ("Gaussian" if (i % 8 == 0) else str(rng.choice(["Gaussian", "Lorentzian"]))), "relaxing": bool(rng.random() < 0.5), "t2_index": int(rng.integers(0, 3)),
                       "seed": int(rng.integers(1 << 30)), "cost": 4 * N})
+    # the listed known finding (Lorentzian shapes, different dephasing rates, uncoupled molecules) is exercised in every run
+    cases.append({"cls": "uncoupled", "N": 2, "E": [11800.0, 12150.0], "J": [[0.0, 0.0], [0.0, 0.0]], "dip": [[1.0, 0.5, 0.2], [0.3, 1.2, -0.4]],
+                  "widths": [150.0, 120.0], "pol": [X, X, X, X], "polclass": "XXXX", "shape": "Lorentzian", "relaxing": False, "t2_index": 0,
+                  "seed": 7, "cost": 8})
     return cases
 
 
